@@ -77,6 +77,7 @@ void World::hs(int slot, int idx, int a) {
   int mode = eop[slot].semode[idx];
   if (mode == 1) { throw_depth = depth; throw SEThrow{slot, idx}; }
   if (mode == 4) { if (ntracer < NTRC) { rec[ntracer].reset(new RecTracer(this, ntracer)); ++ntracer; } return; }
+  if (mode == 5) { if (callobj < 2) m[callobj].reset(); else mv[callobj - 2].reset(); return; }   // the mock object is destroyed from inside its own call; NAMED expectations outlive it
   if (mode == 2 || mode == 3) {
     if (mode == 3 && a >= 2) return;
     ++depth; int outer_fn = callfn; callfn = mode == 2 ? (int)G1 : (int)F1;
